@@ -57,6 +57,9 @@ CLAIMED.update({
  "C04": C("stateful (model-based) property-based testing: generated operation histories across capacity steps and id reuse, BTreeMap reference model with free id choice, full observation after every step",
           "Operation histories over MatrixGraph in 12 configurations (edge type x null element x index width), crossing the 4/8/16/32/64 matrix growth steps and filling the u8 index space; all queries and iterators compared with a map model after every operation; documented panics must leave the graph unchanged.",
           "the BTreeMap model in props/c04.rs", "DESIGN.md section 5, C04"),
+ "C05": C("stateful (model-based) property-based testing: generated insertion histories (Csr rows grown through the 32-entry binary-search cutoff, adj::List with saved edge indices), row-map / Vec<Vec<_>> reference models; differential check of from_sorted_edges against edge-by-edge construction",
+          "Insertion histories over Csr (both edge types, four index widths) and adj::List (four widths) compared with reference models after every step, plus from_sorted_edges on sorted and perturbed edge lists.",
+          "the reference models in props/c05.rs", "DESIGN.md section 5, C05"),
 })
 PLANNED = {}
 
